@@ -157,6 +157,20 @@ def gen_case(rng, malformed):
 def generate(rng, tier):
     nvalid, nbad = (400, 150) if tier == 'quick' else (4000, 1500)
     cases = [gen_case(rng, False) for _ in range(nvalid)] + [gen_case(rng, True) for _ in range(nbad)]
+    # heterogeneous alphabet sizes, (almost) full supports listed in descending order: positional arithmetic of the sample space
+    for i in range(24 if tier == 'quick' else 200):
+        n = rng.choice([2, 3, 3])
+        sizes = rng.choice([[2, 3], [3, 2], [2, 4], [2, 3, 4], [4, 3, 2], [3, 2, 4], [2, 2, 3]])[:n] if n == 2 else rng.choice([[2, 3, 4], [4, 3, 2], [3, 2, 4], [2, 2, 3], [3, 4, 2]])
+        alph = [sorted(rng.sample(range(6), s)) for s in sizes]
+        full = [list(o) for o in itertools.product(*alph)]
+        outs = sorted(rng.sample(full, rng.randint(max(2, len(full) // 2), len(full))), reverse=True)
+        if i % 3 == 0:
+            rng.shuffle(outs)
+        ps = G.gen_probs(rng, len(outs), rng.choice(['kn', 'random', 'dyadic']))
+        ssk = rng.choice(['none', 'cart'])
+        cases.append({'joint': True, 'klass': rng.choice(['str', 'int', 'strtuple']), 'outs': outs, 'ps': ps, 'base': 'linear', 'base_arg': None if i % 2 else 'linear',
+                      'ssk': ssk, 'ss': [list(a) for a in alph] if ssk == 'cart' else None, 'sparse': rng.random() < 0.6, 'trim': rng.random() < 0.6,
+                      'form': rng.choice(['seq', 'dict']), 'fault': None})
     if tier == 'thorough':
         # flag cube on fixed tables
         for _ in range(8):
